@@ -7,6 +7,28 @@ from checks.tables_common import (table_models, generated, run_tables, value_mod
                                   random_value_histories, run_values)
 
 
+def dup_copied_then_added(h):
+    """a table that holds some value twice is the source of a copy, and a value is added to the copy afterwards"""
+    tabs = {1: [], 2: [], 3: []}
+    armed = set()
+    for o in h["ops"]:
+        if o["op"] in ("add", "addv"):
+            if o["t"] in armed:
+                return True
+            if o["op"] == "addv" or o["v"] not in tabs[o["t"]]:
+                tabs[o["t"]].append(o["v"])
+        elif o["op"] in ("clear", "destroy"):
+            tabs[o["t"]] = []
+            armed.discard(o["t"])
+        elif o["op"] == "copy":
+            tabs[o["dst"]] = list(tabs[o["src"]])
+            if len(set(tabs[o["src"]])) < len(tabs[o["src"]]):
+                armed.add(o["dst"])
+            else:
+                armed.discard(o["dst"])
+    return False
+
+
 def run(tier):
     chk = Check("C19", tier, "model_checking")
     chk.rule = ("model: all histories <= MaxOps of add/clear/copy/destroy over three block slots; (G) every generated history "
@@ -19,8 +41,20 @@ def run(tier):
                        "probe hook (CDNS_VERIF) reading the addresses of the table keys"]
     table_models(chk, tier)
     hs = generated(chk, 4, "{0, 3}", need_copy=True, limit=700 if tier == "quick" else None)
+    # tables that hold a value more than once (add_value, what the reader does with the entries of a file): every
+    # generated history in which a table with a repeated value is copied and the copy is then added to, and a sample
+    # of the other histories with add_value
+    av = generated(chk, 4, "{0, 3}", need_copy=True, addv=True)
+    av = [h for h in av if any(o["op"] == "addv" for o in h["ops"])]
+    dup = [h for h in av if dup_copied_then_added(h)]
+    rest = [h for h in av if not dup_copied_then_added(h)]
+    chk.extra["histories_copying_a_repeated_value"] = len(dup)
+    hs += dup[: (1500 if tier == "quick" else None)]
+    hs += random.Random(chk.seed * 5 + 1).sample(rest, min(len(rest), 300 if tier == "quick" else 4000))
     if tier == "thorough":
         hs += generated(chk, 5, "{0, 3}", need_copy=True, limit=6000)
+        av = [h for h in generated(chk, 5, "{0, 3}", need_copy=True, addv=True) if sum(o["op"] == "addv" for o in h["ops"]) >= 2]
+        hs += random.Random(chk.seed * 5 + 2).sample(av, min(len(av), 6000))
     m = run_tables(chk, hs, {"C19"}, label="c19")
     # whole blocks: items, six manners of copying, generic reads on the copies, serialisation (BlockValue.tla)
     value_models(chk, tier)
